@@ -275,6 +275,13 @@ func NewWorld(t *rapid.T, b Bounds) *World {
 			}
 			w.Huge = true
 		}
+		if i == 0 && !w.Huge && gen.Rare(t, "widebase", 25) {
+			// more columns than any small fixed-size table inside a frame
+			fb.MinCols, fb.MaxCols = 9, 12
+			if fb.MaxRows > 12 {
+				fb.MinRows, fb.MaxRows = 0, 12
+			}
+		}
 		fb.SmallDomain = rapid.IntRange(0, 5).Draw(t, "smalldomain") != 0
 		fb.LongNames = b.LongNamesOdds > 0 && gen.Rare(t, "longnames", b.LongNamesOdds)
 		var fs *gen.FrameSpec
